@@ -47,3 +47,9 @@ func VerifLoadConfig(requireValidConfig bool) error {
 func VerifReleaseLevel() uint8 {
 	return uint8(getReleaseLevel())
 }
+
+// VerifCurrentFlag returns the identity of the validity flag that is current right now
+// (used by the harness to number flags in recorded traces; never dereferenced there).
+func VerifCurrentFlag() any {
+	return getValidityFlag()
+}
